@@ -126,17 +126,21 @@ def implicit_call_failures(ctx):
         "gather_dict with an unhashable key": lambda plan, x, started: plan.call(lambda v: started.append("consumer") or v, {x: 1}),
         "unpack of too few items": lambda plan, x, started: plan.call(lambda a, b, c: started.append("consumer"), *plan.unpack(x, 3)),
         "getitem beyond the unpacked length": lambda plan, x, started: plan.call(lambda v: started.append("consumer"), plan.call(__import__("operator").getitem, x, 5)),
+        # callables implemented in C have no frame of their own: the failing call's traceback ends in the library's own plumbing
+        "operator.truediv of a list": lambda plan, x, started: plan.call(lambda v: started.append("consumer"), plan.call(__import__("operator").truediv, x, 0)),
+        "int() of a list": lambda plan, x, started: plan.call(lambda v: started.append("consumer"), plan.call(int, x)),
+        "partial of operator.getitem": lambda plan, x, started: plan.call(lambda v: started.append("consumer"), plan.call(__import__("functools").partial(__import__("operator").getitem, [0]), x)),
     }
     for name, build in cases.items():
         for workers in (1, 3):
-            for max_errors in (0, None):
+            for max_errors, retry in ((0, None), (None, None), (0, 2), (None, 3)):
                 started = []
                 plan = uberjob.Plan()
                 x = plan.call(lambda: started.append("x") or [1, 2])
                 consumer = build(plan, x, started)
-                ctx.case(("implicit-call-failure", name, workers, max_errors))
+                ctx.case(("implicit-call-failure", name, workers, max_errors, retry))
                 try:
-                    res = uberjob.run(plan, output=consumer, max_workers=workers, max_errors=max_errors, progress=None)
+                    res = uberjob.run(plan, output=consumer, max_workers=workers, max_errors=max_errors, progress=None, retry=retry)
                     oc, err = "returned %r" % (res,), None
                 except uberjob.CallError as e:
                     oc, err = "callerror", e
@@ -153,7 +157,8 @@ def implicit_call_failures(ctx):
                 elif not isinstance(err.__cause__, (TypeError, ValueError, IndexError, KeyError)):
                     bad = "the cause is %r, not the exception the implicit call raised" % (err.__cause__,)
                 if bad:
-                    ctx.fail("implicit-call-failure", "%s (max_workers=%d, max_errors=%r): %s" % (name, workers, max_errors, bad), {"case": name, "max_workers": workers, "max_errors": max_errors})
+                    ctx.fail("implicit-call-failure", "%s (max_workers=%d, max_errors=%r, retry=%r): %s" % (name, workers, max_errors, retry, bad),
+                             {"case": name, "max_workers": workers, "max_errors": max_errors, "retry": retry})
 
 
 CWD_CHILD = r'''
